@@ -324,7 +324,7 @@ def run_task(task):
     log = core.EventLog()
     res = {'id': task['id'], 'n': 0, 'outcomes': {}, 'fired': {},
            'triples': {}, 'texts': {}, 'violations': [], 'steps': 0,
-           'probes': {}, 'nontrivial': 0, 'samples': []}
+           'probes': {}, 'nontrivial': 0, 'samples': [], 'kept_texts': {}}
     seen = set()
     for it in items:
         out, viols = read_text(it['text'])
@@ -343,7 +343,20 @@ def run_task(task):
             if out['kind'] == 'syntax' else out.get('qtype', '')
         tri = '%s|%s|%s' % (out['kind'], where, fk)
         res['triples'][tri] = res['triples'].get(tri, 0) + 1
+        if th in res['texts'] and res['texts'][th] != ev:
+            v = core.violation(
+                PROP, 'same-text-same-outcome', 'history-dependent-read',
+                'same-text-read-twice-ends-differently',
+                {'first': res['texts'][th], 'now': ev, 'outcome': out})
+            v['spec'] = {'property': PROP, 'text': it['text'],
+                         'twice': True, 'base': it['base'],
+                         'faults': it['faults'],
+                         'budget': budget(len(it['text']))}
+            v['run'] = it['id']
+            res['violations'].append(v)
         res['texts'][th] = ev
+        if out['kind'] != 'syntax' and len(it['text']) <= 400:
+            res['kept_texts'][th] = it['text']
         first_tok_end = len(it['text']) - len(it['text'].lstrip()) + 8
         nontrivial = out['kind'] in ('query', 'reader', 'notimpl',
                                       'internal', 'hang') or \
@@ -392,10 +405,53 @@ def run_task(task):
 def execute_spec(spec):
     """Replay an explicit spec; returns (violations, event digest)."""
     out, viols = read_text(spec['text'])
+    if spec.get('twice'):
+        ev1 = _event(out)
+        out, viols2 = read_text(spec['text'])
+        viols = viols + [v for v in viols2
+                         if v['signature'] not in
+                         [w['signature'] for w in viols]]
+        if _event(out) != ev1:
+            viols.append(core.violation(
+                PROP, 'same-text-same-outcome', 'history-dependent-read',
+                'same-text-read-twice-ends-differently',
+                {'first': ev1, 'now': _event(out), 'outcome': out}))
     return viols, _event(out), out
 
 
+def cross_cell(cells, prop):
+    """History check over the batch: the same text read in two tasks (two
+    points of some worker's life) must end the same way."""
+    viols = []
+    for hs in sorted(cells):
+        seen = {}
+        texts = {}
+        for r in cells[hs]:
+            texts.update(r.get('kept_texts') or {})
+        for r in cells[hs]:
+            for th, ev in r['texts'].items():
+                if th in seen and seen[th] != ev and th in texts \
+                        and not viols:
+                    v = core.violation(
+                        PROP, 'same-text-same-outcome',
+                        'history-dependent-read',
+                        'same-text-read-twice-ends-differently',
+                        {'first': seen[th], 'other': ev,
+                         'text': texts[th][:200]})
+                    v['spec'] = {'property': PROP, 'text': texts[th],
+                                 'twice': True, 'base': '?', 'faults': [],
+                                 'budget': budget(len(texts[th]))}
+                    v['run'] = 'cross-task-%s' % th
+                    v['hash_seed'] = hs
+                    viols.append(v)
+                seen.setdefault(th, ev)
+    return viols
+
+
 def shrink(spec, signature):
+    if spec.get('twice'):
+        return spec
+
     def test(t):
         # first-pass budget only while shrinking (20x cheaper for hangs);
         # the result is confirmed at the full budget by the caller
@@ -433,9 +489,7 @@ def summarise(all_results):
             agg['samples'].extend(r['samples'][:1])
             if len(agg['samples']) >= 4:
                 break
-    if agg['conflicts']:
-        raise RuntimeError('same text, different outcome/steps: %r'
-                           % agg['conflicts'][:5])
+    agg['n_conflicts'] = len(agg['conflicts'])
     return {
         'evaluations': agg['n'],
         'distinct_nontrivial': len(agg['nontrivial_texts']),
@@ -452,6 +506,8 @@ def summarise(all_results):
         'outcomes': agg['outcomes'],
         'faults_fired': agg['fired'],
         'probes': agg['probes'],
+        'same_text_read_in_two_tasks_with_different_outcome':
+        agg['n_conflicts'],
         'simulated_time': {'unit': 'python LINE steps inside pgradd',
                            'total': agg['steps']},
     }
